@@ -18,7 +18,7 @@ import time
 from collections import deque
 
 from .. import vlib
-from ..sched import Blocked, Sched
+from ..sched import Blocked, Sched, install_coop_locks
 
 KINDS = ["ping", "version", "verack", "inv", "addr", "unknown"]
 CMD = {"ping": b"ping", "version": b"version", "verack": b"verack", "inv": b"inv", "addr": b"addr",
@@ -247,6 +247,16 @@ class Rig:
         self.peers = sorted(script)
         p2p.set_magic_start_bytes(_net_of(script))
         self.sched = sched = Sched()
+        self.threads = []
+        # an implementation may guard its shared state with locks: their acquisition becomes a scheduling point (sched.CoopLock)
+        self._undo_locks = install_coop_locks(p2p, sched)
+        try:
+            self._setup(script, connect, p2p, sched)
+        except BaseException:
+            self._undo_locks()
+            raise
+
+    def _setup(self, script, connect, p2p, sched):
 
         class NodeX(p2p.Node):
             """the real Node; rebinding the shared queue attribute is a scheduling point too (a read-copy-write
@@ -349,6 +359,7 @@ class Rig:
         self.sched.release_all()
         for t in self.threads:
             t.join(timeout=2)
+        self._undo_locks()
         self.p2p.set_magic_start_bytes("mainnet")
 
 
@@ -472,6 +483,7 @@ def _stage_b(ctx):
         rig = Rig(script)
         try:
             ok = True
+            last = (None, None)
             for action, params, state in beh[1:]:
                 p = params[0]
                 if action == "Finish":
@@ -486,6 +498,7 @@ def _stage_b(ctx):
                 rig.step(p)
                 got = rig.project()
                 exp = {"queue": state["queue"], "sent": state["sent"], "vdata": state["vdata"]}
+                last = (got.pop("vdata"), exp.pop("vdata"))     # WHEN the version payload is stored is not the property's concern
                 if got != exp:
                     ctx.violation("replayed-state-differs",
                                   {"stage": "B", "script": {str(k): v for k, v in script.items()}, "action": f"{action}({p})",
@@ -495,6 +508,9 @@ def _stage_b(ctx):
             if ok:
                 replayed += 1
                 ctx.nontrivial(("B", json.dumps(script, sort_keys=True), tuple(a + str(pp) for a, pp, _ in beh[1:])))
+                if len(beh) > 1 and last[0] != last[1]:
+                    ctx.extension_mismatch("version-payload-stored-differs", {"stage": "B", "script": {str(k): v for k, v in script.items()},
+                                                                              "expected": last[1], "got": last[0]})
             else:
                 shape += 1
         except Blocked:
@@ -535,6 +551,9 @@ def _validate(ctx, recs, cfg, name):
             continue
         if v == "ok-unexplained-shape":
             unexplained += 1
+            continue
+        if v == "version-not-stored":       # remembering the peer's version payload is outside the property's statement
+            ctx.extension_mismatch(v, {"stage": "C", "script": r["script"], "schedule": r["schedule"], "final": r["final"]})
             continue
         ctx.violation(v, {"stage": "C", "script": r["script"], "schedule": r["schedule"], "final": r["final"],
                           "events": [e["op"] + str(e.get("p")) for e in r["ev"]]})
